@@ -277,6 +277,7 @@ class RealTSA:
       R.shared_attr(d, desc, a, "desc." + a)
     self.desc = desc
     self.o.__dict__ = R.make_dict(d, "vals")
+    self.same_names = bool(sc.info.get("same_names"))
     self.errors = {}
     self.reads = {}
     self.bodies = {}
@@ -284,7 +285,10 @@ class RealTSA:
       self.bodies[t] = self.body(t, getattr(S, "%s_%d" % (kind, t)))
 
   def body(self, t, fn):
+    same = self.same_names
+
     def run():
+      threading.current_thread().name = "worker" if same else "worker-%d" % t
       try:
         self.reads[t] = fn(self.o)
       except BaseException as ex:      # noqa: the failure is the observation
